@@ -115,7 +115,17 @@ func runSessState(c *core.Ctx) {
 	okCtx := false
 	for _, call := range callsNamed(start, "context.WithValue") {
 		v := an.Unwrap(call.Call.Args[2])
+		fresh := false
 		if a, ok := v.(*ssa.Alloc); ok && a.Parent() == start && strings.Contains(typeNameOf(a.Type()), "CtxValue") {
+			fresh = true
+		}
+		// … or built by a constructor that returns nothing but its own allocation
+		if cc, ok := v.(*ssa.Call); ok && cc.Parent() == start && strings.Contains(typeNameOf(cc.Type()), "CtxValue") {
+			if g := an.StaticCallee(&cc.Call); g != nil && an.InModuleFn(g) && freshResult(g, 0) {
+				fresh = true
+			}
+		}
+		if fresh {
 			for _, rb := range an.ReturnBlocks(start) {
 				if an.LastInstr(rb).(*ssa.Return).Results[0] == ssa.Value(call) {
 					okCtx = true
@@ -376,6 +386,43 @@ func runQuotaGuard(c *core.Ctx) {
 			okCls = true
 		}
 	}
+	if !okCls && cm == "" {
+		// the removal as a method of the per-connection value (`v.release(msg.SubscriptionID)`): the
+		// CLOSE handler calls it with its message's id, and the method deletes exactly its parameter
+		for _, fn := range P.ModFuncs {
+			if !strings.Contains(recvTypeName(fn), "MaxSubscriptions") || fn.Parent() != nil || fn == cls {
+				continue
+			}
+			hm := ""
+			for _, p := range fn.Params {
+				if typeNameOf(p.Type()) == "ClientCloseMsg" {
+					hm = "p:" + p.Name()
+				}
+			}
+			for _, site := range callsTo(fn, cls) {
+				if hm == "" {
+					continue
+				}
+				for i, a := range site.Call.Args {
+					if an.PathOf(a) != hm+".SubscriptionID" || i >= len(cls.Params) {
+						continue
+					}
+					for _, d := range mapDeletesOn(cls, ".subs") {
+						// on every path of the method
+						always := true
+						for _, rb := range an.ReturnBlocks(cls) {
+							if !(d.Block() == rb || d.Block().Dominates(rb)) {
+								always = false
+							}
+						}
+						if always && an.PathOf(d.Call.Args[1]) == "p:"+cls.Params[i].Name() {
+							okCls = true
+						}
+					}
+				}
+			}
+		}
+	}
 	c.Check(okCls, nil, fname(c, cls), "close-frees", P.Pos(cls.Pos()), "CLOSE removes its subscription id from the set", "CLOSE does not free the slot of its subscription id")
 }
 
@@ -416,23 +463,35 @@ func seenOrAddHelper(h *ssa.Function, site *ssa.CallCommon, id string) bool {
 	if get == nil || add == nil {
 		return false
 	}
-	for _, want := range []bool{true, false} {
-		ps, ok := an.ResultPaths(h, 0, want)
-		if !ok || len(ps) == 0 {
-			return false
-		}
-		for _, p := range ps {
-			hit := p.Has(func(g an.Cond) bool {
-				ex, isEx := g.V.(*ssa.Extract)
-				return isEx && ex.Tuple == ssa.Value(get) && ex.Index == 1 && g.True == want
-			})
-			if !hit || p.Path.Contains(add.Block()) == want {
+	// the verdict may be "seen before" (true = found) or "first sight" (true = not found)
+	for _, foundPol := range []bool{true, false} {
+		good := true
+		for _, want := range []bool{true, false} {
+			ps, ok := an.ResultPaths(h, 0, want)
+			if !ok || len(ps) == 0 {
 				return false
 			}
+			wantFound := want == foundPol
+			for _, p := range ps {
+				hit := p.Has(func(g an.Cond) bool {
+					ex, isEx := g.V.(*ssa.Extract)
+					return isEx && ex.Tuple == ssa.Value(get) && ex.Index == 1 && g.True == wantFound
+				})
+				if !hit || p.Path.Contains(add.Block()) == wantFound {
+					good = false
+				}
+			}
+		}
+		if good {
+			seenHelperFoundPol[h] = foundPol
+			return true
 		}
 	}
-	return true
+	return false
 }
+
+// seenHelperFoundPol: which answer of an accepted look-up-and-record helper means "was there".
+var seenHelperFoundPol = map[*ssa.Function]bool{}
 
 func runUniqPath(c *core.Ctx) {
 	P := c.P
@@ -486,7 +545,9 @@ func runUniqPath(c *core.Ctx) {
 			continue
 		}
 		found := ""
+		foundPol := true
 		if helperSite != nil {
+			foundPol = seenHelperFoundPol[an.StaticCallee(&helperSite.Call)]
 			found = an.PathOf(helperSite)
 			get, add = helperSite, helperSite
 			adds = nil
@@ -500,7 +561,7 @@ func runUniqPath(c *core.Ctx) {
 			isFound, notFound := false, false
 			for _, g := range gs {
 				if an.PathOf(g.V) == found {
-					isFound, notFound = g.True, !g.True
+					isFound, notFound = g.True == foundPol, g.True != foundPol
 				}
 			}
 			switch {
